@@ -42,7 +42,7 @@ def plan(tier):
 
 def floors(tier):
     f = {"nontrivial": 40, "held:main": 40, "held:catalogue": 15, "counter:calls_checked": 3000, "counter:rows_checked": 20000,
-         "counter:onestep_returns": 10000, "counter:full_output_dicts_checked": 500,
+         "counter:onestep_returns": 10000, "counter:full_output_dicts_checked": 500, "counter:reinitialised_rounds": 30,
          "class:single-state": 3, "class:time-dependent": 5, "class:grid-nonuniform": 20, "class:grid-uniform": 20}
     for m in METHODS:
         f["counter:method_%s" % m] = 200
@@ -136,6 +136,7 @@ def run_case(rng, idx, tier, lane, ctx):
     nontriv = False
     sample = {"spec": spec if lane != "catalogue" else {"catalogue": cls[1]}, "theta": theta, "x0": x0, "horizon": horizon, "grids": {}}
     probe = OneStepProbe()
+    last = None
     with probe:
         for gname, grid in make_grids(rng, horizon).items():
             if len(grid) < 2:
@@ -253,8 +254,41 @@ def run_case(rng, idx, tier, lane, ctx):
             out = attempt("integrate([t1])", lambda: m.integrate([tk]))
             if out is not None:
                 judge("integrate([t1])", out, True, 1.5e-8, times_idx=[0, k + 1], entry="integrate", method="odeint")
+            last = (gname, g, garg)
             if len(wit) > 8:
                 break
+        # ---- second round on the SAME model object: new initial state and a new (non-zero) initial time, then the same requested
+        # times again (the very same grid object): every entry point must integrate from the initial values now in force
+        if last is not None and len(wit) <= 8:
+            gname, g, garg = last
+            attempt("integrate before re-initialisation", lambda: m.integrate(garg))     # the call right before uses the same times
+            t0b = float(rng.choice([-0.3 * horizon, 0.5 * float(g[0]), 0.9 * float(g[0])]))
+            x0b = [v * rng.uniform(0.8, 1.2) for v in x0]
+            how = rng.choice(["initial_values", "initial_state+initial_time", "initial_time-only"])
+            if how == "initial_values":
+                m.initial_values = (list(x0b), t0b)
+            elif how == "initial_state+initial_time":
+                m.initial_state = list(x0b)
+                m.initial_time = t0b
+            else:
+                x0b = list(x0)
+                m.initial_time = t0b
+            rs = RI.reference(f, x0b, t0b, g, jac=jac, stiff_hint=(lane == "catalogue" and cls[1] == "cat-Robertson"))
+            if rs.ok:
+                counters["reinitialised_rounds"] = counters.get("reinitialised_rounds", 0) + 1
+                sample["second_round"] = {"t0": t0b, "x0": x0b, "how": how, "grid": gname}
+                full = np.vstack([np.asarray(x0b, dtype=float)[None, :], rs.x])
+                x0_saved, x0 = x0, x0b          # judge() reports x0
+                stiff = stiff_at([x0b] + [r for r in rs.x])
+                for lab, fn, tau, entry, meth in (
+                        ("integrate after re-initialisation (%s)" % how, lambda: m.integrate(garg), 1.5e-8, "integrate", "odeint"),
+                        ("solve_determ after re-initialisation (%s)" % how, lambda: m.solve_determ(garg), 1.5e-8, "solve_determ", "odeint"),
+                        ("integrate2 after re-initialisation (%s)" % how, lambda: m.integrate2(garg, method=None), 1e-10, "integrate2", None)):
+                    out = attempt(lab, fn)
+                    if out is not None:
+                        judge(lab, out, True, tau, entry=entry, method=meth)
+                    # and back to the first initial values with the same times once more (alternating re-initialisation)
+                x0 = x0_saved
     counters["onestep_returns"] = probe.returns
     counters["onestep_returns_aliasing_integrator_buffer"] = probe.aliased
     if not sample["grids"]:
